@@ -198,7 +198,7 @@ func (ex *Exec) store(p Ptr, v Value, site string) {
 		panic(goPanic{"nil pointer dereference (store)", site})
 	}
 	if p.O != nil && p.O.Frozen {
-		ex.mon.frozenWrite(ex, p.O, site)
+		ex.mon.frozenWrite(ex, p.O, site, ex.differs(*p.C, v))
 	}
 	if len(ex.mon.frozenObjs) > 0 {
 		ex.res.monitorChecks++
@@ -810,7 +810,7 @@ func (ex *Exec) exec(fr *frame, ins ssa.Instruction) {
 			panic(goPanic{"assignment to entry in nil map", ex.pos2(in)})
 		}
 		if m.O != nil && m.O.Frozen {
-			ex.mon.frozenWrite(ex, m.O, ex.pos2(in))
+			ex.mon.frozenWrite(ex, m.O, ex.pos2(in), tTrue)
 		}
 		if ex.mon.lockset != nil {
 			ex.mon.access(ex, m.O, nil, true, ex.pos2(in))
@@ -1157,7 +1157,11 @@ func (ex *Exec) builtin(b *ssa.Builtin, args []Value, cc *ssa.CallCommon, site s
 		}
 		if s.Len+len(add) <= s.Cap {
 			if s.O != nil && s.O.Frozen {
-				ex.mon.frozenWrite(ex, s.O, site+" (append into spare capacity)")
+				var neq []*Term
+				for i, v := range add {
+					neq = append(neq, ex.differs(s.Arr[s.Off+s.Len+i], v))
+				}
+				ex.mon.frozenWrite(ex, s.O, site+" (append into spare capacity)", mkOr(neq...))
 			}
 			for i, v := range add {
 				s.Arr[s.Off+s.Len+i] = v
@@ -1202,7 +1206,7 @@ func (ex *Exec) builtin(b *ssa.Builtin, args []Value, cc *ssa.CallCommon, site s
 			return nil
 		}
 		if m.O != nil && m.O.Frozen {
-			ex.mon.frozenWrite(ex, m.O, site)
+			ex.mon.frozenWrite(ex, m.O, site, tTrue)
 		}
 		if ex.mon.lockset != nil {
 			ex.mon.access(ex, m.O, nil, true, site)
